@@ -240,7 +240,7 @@ func runC06InWorker(c c06Case) error {
 		if c.Projections {
 			half := spec.TypeSpec{K: "struct"}
 			for i, f := range c.Target.Fields {
-				if i%2 == 1 {
+				if i%2 == 1 && !f.Unexported {
 					half.Fields = append(half.Fields, f)
 				}
 			}
